@@ -1,12 +1,13 @@
 #!/bin/bash
-# usage: seedtest.sh <seed-name> <prop> [<prop>...]  — applies /verif/seeded/<seed>/patch.diff to /repo, runs checks, reverts
+# usage: seedtest.sh <seed-name> <prop> [<prop>...]  — applies $V/seeded/<seed>/patch.diff to /repo, runs checks, reverts
 seed="$1"; shift
-cd /repo || exit 2
+V="${VERIF_HOME:-/verif}"; R="${VERIF_REPO:-/repo}"
+cd "$R" || exit 2
 if [ -n "$(git status --porcelain)" ]; then echo "REFUSED: /repo has uncommitted changes (seedtest reverts the working tree)"; exit 2; fi
-git apply /verif/seeded/$seed/patch.diff || { echo "APPLY-FAILED $seed"; exit 2; }
+git apply $V/seeded/$seed/patch.diff || { echo "APPLY-FAILED $seed"; exit 2; }
 for p in "$@"; do
-  out=$(cd /verif && bin/check $p -no-evidence 2>&1); rc=$?
+  out=$(cd "$V" && bin/check $p -no-evidence 2>&1); rc=$?
   echo "== seed=$seed prop=$p exit=$rc"
   echo "$out" | grep -E "^(VIOLATION|UNDECIDED|ENGINE-FAULT|KNOWN|DEGRADED|C[0-9]+:)" | cut -c1-260
 done
-git -C /repo checkout -- . 
+git -C "$R" checkout -- . 
